@@ -8,11 +8,13 @@
 package batch
 
 import (
+	"cmp"
 	"context"
 	"errors"
 	"fmt"
 	"maps"
 	"slices"
+	"strings"
 
 	"github.com/cedar-policy/cedar-go"
 	"github.com/cedar-policy/cedar-go/internal/consts"
@@ -164,7 +166,9 @@ func Authorize(ctx context.Context, policies cedar.PolicyIterator, entities type
 		be.Variables = append(be.Variables, variableItem{Key: k, Values: v})
 	}
 	slices.SortFunc(be.Variables, func(a, b variableItem) int {
-		return len(a.Values) - len(b.Values)
+		// tie-break by name: the variables come out of a map, and the order in which they are bound
+		// must not depend on its iteration order
+		return cmp.Or(len(a.Values)-len(b.Values), strings.Compare(string(a.Key), string(b.Key)))
 	})
 
 	// resolve ignores if no variables exist
